@@ -18,6 +18,7 @@ from vlib import cgen, pgen
 from vlib.harness import SubCheck, make_trace_machine, must, require
 
 PROPERTY_ID = "C20"
+TECHNIQUE = 'stateful property-based testing (Hypothesis RuleBasedStateMachine): pool of shared objects, deep observable fingerprints after every call, repeated-call agreement'
 RULE = (
     "Stateful: a pool of shared objects (numeric and symbolic circuits, Pauli terms and sums, a "
     "measurement set, outcome distributions, a wavefunction, plain containers passed as arguments) "
